@@ -3,15 +3,20 @@ package checks
 import (
 	"bytes"
 	"fmt"
+	"io"
 	"math/rand/v2"
+	"os"
+	"path/filepath"
 	"sort"
 	"strconv"
+	"strings"
 	"sync"
 
 	"verif/harness/lib"
 
 	"github.com/buchgr/bazel-remote/v2/cache"
 	pb "github.com/buchgr/bazel-remote/v2/genproto/build/bazel/remote/execution/v2"
+	bspb "google.golang.org/genproto/googleapis/bytestream"
 	"google.golang.org/grpc/codes"
 	"google.golang.org/protobuf/proto"
 )
@@ -43,6 +48,12 @@ func (e *c02Env) viol(kind, path string, b *c02Blob, what string, extra map[stri
 	e.r.Violation(fmt.Sprintf("C02:%s:%s:w=%s:r=%s", path, kind, e.wcfg, e.rcfg), what, d)
 }
 
+// watchdog records that the harness's own watchdog context fired during a read: no verdict about the server.
+func (e *c02Env) watchdog(path string) {
+	e.r.Count("inconclusive.watchdog." + path)
+	e.r.Inconclusive(fmt.Sprintf("C02 %s (w=%s r=%s): watchdog context expired during a read", path, e.wcfg, e.rcfg))
+}
+
 func offClass(off, n, chunk int64) string {
 	switch {
 	case off == 0:
@@ -70,8 +81,6 @@ func (e *c02Env) readsFor(rng *rand.Rand, b *c02Blob, nReads int, only string) {
 	r, srv := e.r, e.srv
 	B, n := b.B, int64(len(b.B))
 	h := b.hash
-	ctx, cancel := lib.Ctx()
-	defer cancel()
 	cfg := "w=" + e.wcfg + ",r=" + e.rcfg
 	szc := lib.SizeClassName(len(B))
 
@@ -99,18 +108,31 @@ func (e *c02Env) readsFor(rng *rand.Rand, b *c02Blob, nReads int, only string) {
 		g := srv.HTTPGet("/cas/"+h, nil)
 		r.Count("http-get." + strconv.Itoa(g.Status))
 		r.Distinct("http-get", cfg, szc)
+		if x1IsWatchdog(nil, g.Err) || x1IsWatchdog(nil, g.BodyErr) {
+			e.watchdog("http-get")
+			return
+		}
 		if g.Status != 200 || g.Err != nil || g.BodyErr != nil {
 			e.viol("read-failed", "http-get", b, fmt.Sprintf("GET /cas of a stored blob failed: %d %v %v", g.Status, g.Err, g.BodyErr), nil)
 			return
 		}
-		if check("http-get", g.Body, B, nil) && g.Header.Get("Content-Length") != strconv.FormatInt(n, 10) {
-			e.viol("wrong-size", "http-get", b, "Content-Length "+g.Header.Get("Content-Length")+" for a blob of "+strconv.FormatInt(n, 10), nil)
+		// "reports size n wherever a size is reported": an answer without Content-Length reports none
+		cl := g.Header.Get("Content-Length")
+		if cl == "" {
+			r.Count("http-get.no-content-length")
+		}
+		if check("http-get", g.Body, B, nil) && cl != "" && cl != strconv.FormatInt(n, 10) {
+			e.viol("wrong-size", "http-get", b, "Content-Length "+cl+" for a blob of "+strconv.FormatInt(n, 10), nil)
 		}
 	})
 	ops = append(ops, func() {
 		g := srv.HTTPGet("/cas/"+h, map[string]string{"Accept-Encoding": "zstd"})
 		r.Count("http-get-zstd." + strconv.Itoa(g.Status))
 		r.Distinct("http-get-zstd", cfg, szc)
+		if x1IsWatchdog(nil, g.Err) || x1IsWatchdog(nil, g.BodyErr) {
+			e.watchdog("http-get-zstd")
+			return
+		}
 		if g.Status != 200 || g.Err != nil || g.BodyErr != nil {
 			e.viol("read-failed", "http-get-zstd", b, fmt.Sprintf("GET /cas (Accept-Encoding: zstd) of a stored blob failed: %d %v %v", g.Status, g.Err, g.BodyErr), nil)
 			return
@@ -130,10 +152,16 @@ func (e *c02Env) readsFor(rng *rand.Rand, b *c02Blob, nReads int, only string) {
 		hd := srv.HTTPHead("/cas/" + h)
 		r.Eval()
 		r.Count("http-head." + strconv.Itoa(hd.Status))
+		if x1IsWatchdog(nil, hd.Err) {
+			e.watchdog("http-head")
+			return
+		}
 		if hd.Status != 200 {
 			e.viol("read-failed", "http-head", b, fmt.Sprintf("HEAD of a stored blob: %d", hd.Status), nil)
-		} else if hd.Header.Get("Content-Length") != strconv.FormatInt(n, 10) {
-			e.viol("wrong-size", "http-head", b, "HEAD Content-Length "+hd.Header.Get("Content-Length")+" for a blob of "+strconv.FormatInt(n, 10), nil)
+		} else if cl := hd.Header.Get("Content-Length"); cl == "" {
+			r.Count("http-head.no-content-length")
+		} else if cl != strconv.FormatInt(n, 10) {
+			e.viol("wrong-size", "http-head", b, "HEAD Content-Length "+cl+" for a blob of "+strconv.FormatInt(n, 10), nil)
 		}
 	})
 	// ---- BatchReadBlobs
@@ -146,8 +174,14 @@ func (e *c02Env) readsFor(rng *rand.Rand, b *c02Blob, nReads int, only string) {
 				path = "batchread-zstd"
 				req.AcceptableCompressors = []pb.Compressor_Value{pb.Compressor_ZSTD}
 			}
+			ctx, cancel := lib.Ctx()
+			defer cancel()
 			resp, err := srv.CAS.BatchReadBlobs(ctx, req)
 			r.Distinct(path, cfg, szc)
+			if x1IsWatchdog(ctx, err) {
+				e.watchdog(path)
+				return
+			}
 			if err != nil || len(resp.Responses) != 1 {
 				e.viol("read-failed", path, b, fmt.Sprintf("BatchReadBlobs failed: %v", err), nil)
 				return
@@ -181,6 +215,10 @@ func (e *c02Env) readsFor(rng *rand.Rand, b *c02Blob, nReads int, only string) {
 	if n > 1 {
 		offs = append(offs, rng.Int64N(n), rng.Int64N(n), 1+rng.Int64N(n))
 	}
+	// every chunk boundary of the blob, and its two neighbours
+	for k := int64(1); k*chunk <= n+1; k++ {
+		offs = append(offs, k*chunk-1, k*chunk, k*chunk+1)
+	}
 	// more mid-chunk offsets on multi-chunk blobs (partial first chunk then streaming)
 	if n > chunk {
 		for i := 0; i < 4; i++ {
@@ -207,7 +245,17 @@ func (e *c02Env) readsFor(rng *rand.Rand, b *c02Blob, nReads int, only string) {
 			}
 			bsf := func() {
 				path := "bs-read"
+				ctx, cancel := lib.Ctx()
+				defer cancel()
 				got, err := srv.BSRead(ctx, lib.ResBlobs(h, n), off, lim)
+				if x1IsWatchdog(ctx, err) {
+					// (the bytes received so far still have to be a prefix, but nothing is concluded from the missing rest)
+					if !bytes.HasPrefix(B[off:], got) {
+						check(path, got, B[off:][:min(len(got), len(B[off:]))], map[string]any{"offset": off, "limit": lim})
+					}
+					e.watchdog(path)
+					return
+				}
 				r.Eval()
 				r.Count("bs-read." + lib.Code(err).String())
 				r.Distinct(path, cfg, szc, offClass(off, n, chunk), limClass(lim, rem))
@@ -240,7 +288,13 @@ func (e *c02Env) readsFor(rng *rand.Rand, b *c02Blob, nReads int, only string) {
 		}
 		bszf := func() {
 			path := "bs-read-zstd"
+			ctx, cancel := lib.Ctx()
+			defer cancel()
 			got, err := srv.BSRead(ctx, lib.ResZstd(h, n), off, 0)
+			if x1IsWatchdog(ctx, err) {
+				e.watchdog(path)
+				return
+			}
 			r.Eval()
 			r.Count("bs-read-zstd." + lib.Code(err).String())
 			r.Distinct(path, cfg, szc, offClass(off, n, chunk))
@@ -262,6 +316,36 @@ func (e *c02Env) readsFor(rng *rand.Rand, b *c02Blob, nReads int, only string) {
 		if off > 0 && off < n {
 			bsZstdOffsetOps = append(bsZstdOffsetOps, bszf)
 		}
+	}
+	// a streamed read cancelled by the client after its first message: what arrived is a prefix of the range
+	if n > 0 {
+		coff := uoffs[rng.IntN(len(uoffs))]
+		if coff >= n {
+			coff = 0
+		}
+		ops = append(ops, func() {
+			ctx, cancel := lib.Ctx()
+			st, err := srv.BS.Read(ctx, &bspb.ReadRequest{ResourceName: lib.ResBlobs(h, n), ReadOffset: coff})
+			var first []byte
+			if err == nil {
+				var m *bspb.ReadResponse
+				if m, err = st.Recv(); err == nil {
+					first = append(first, m.Data...)
+				}
+			}
+			wd := x1IsWatchdog(ctx, err)
+			cancel()
+			if wd {
+				e.watchdog("bs-read-cancelled")
+				return
+			}
+			r.Eval()
+			r.Count("bs-read-cancelled." + lib.Code(err).String())
+			r.Distinct("bs-read-cancelled", cfg, szc, offClass(coff, n, chunk))
+			if !bytes.HasPrefix(B[coff:], first) {
+				check("bs-read-cancelled", first, B[coff:][:min(len(first), len(B[coff:]))], map[string]any{"offset": coff, "cancelled_after_first_message": true})
+			}
+		})
 	}
 	if only != "" {
 		// targeted first read of a backend-only blob: exactly one operation of the requested kind
@@ -341,15 +425,24 @@ func (e *c02Env) store(rng *rand.Rand, b *c02Blob) bool {
 	return ok
 }
 
-func (e *c02Env) emptyBlob() {
+func (e *c02Env) emptyBlob(where string) {
 	srv, r := e.srv, e.r
 	ctx, cancel := lib.Ctx()
 	defer cancel()
-	eb := &c02Blob{B: []byte{}, hash: lib.EmptySha256, via: "never stored"}
-	fail := func(path, what string) { e.viol("empty-blob", path, eb, "empty blob: "+what, nil) }
+	eb := &c02Blob{B: []byte{}, hash: lib.EmptySha256, via: "never stored (" + where + ")"}
+	fail := func(path, what string) { e.viol("empty-blob", path, eb, "empty blob ("+where+"): "+what, nil) }
+	wd := func(err error) bool {
+		if x1IsWatchdog(ctx, err) {
+			e.watchdog("empty-blob")
+			return true
+		}
+		return false
+	}
 	r.Eval()
 	if g := srv.HTTPGet("/cas/"+lib.EmptySha256, nil); g.Status != 200 || len(g.Body) != 0 {
 		fail("http-get", fmt.Sprintf("GET -> %d, %d bytes", g.Status, len(g.Body)))
+	} else if cl := g.Header.Get("Content-Length"); cl != "" && cl != "0" {
+		fail("http-get", "Content-Length "+cl)
 	}
 	if g := srv.HTTPGet("/cas/"+lib.EmptySha256, map[string]string{"Accept-Encoding": "zstd"}); g.Status != 200 {
 		fail("http-get-zstd", fmt.Sprintf("GET -> %d", g.Status))
@@ -362,6 +455,10 @@ func (e *c02Env) emptyBlob() {
 	}
 	if h := srv.HTTPHead("/cas/" + lib.EmptySha256); h.Status != 200 {
 		fail("http-head", fmt.Sprintf("HEAD -> %d", h.Status))
+	} else if cl := h.Header.Get("Content-Length"); cl != "" && cl != "0" {
+		fail("http-head", "HEAD Content-Length "+cl)
+	} else {
+		r.Count("empty-blob.head-content-length." + map[bool]string{true: "absent", false: "0"}[cl == ""])
 	}
 	for _, z := range []bool{false, true} {
 		req := &pb.BatchReadBlobsRequest{Digests: []*pb.Digest{{Hash: lib.EmptySha256}}}
@@ -369,6 +466,9 @@ func (e *c02Env) emptyBlob() {
 			req.AcceptableCompressors = []pb.Compressor_Value{pb.Compressor_ZSTD}
 		}
 		resp, err := srv.CAS.BatchReadBlobs(ctx, req)
+		if wd(err) {
+			return
+		}
 		if err != nil || len(resp.Responses) != 1 || resp.Responses[0].GetStatus().GetCode() != 0 {
 			fail("batchread", fmt.Sprintf("zstd=%v err=%v resp=%v", z, err, resp))
 			continue
@@ -383,120 +483,637 @@ func (e *c02Env) emptyBlob() {
 		if len(d) != 0 {
 			fail("batchread", "non-empty data")
 		}
+		if dg := resp.Responses[0].Digest; dg.GetHash() != lib.EmptySha256 || dg.GetSizeBytes() != 0 {
+			fail("batchread", fmt.Sprintf("response digest (%s,%d)", dg.GetHash(), dg.GetSizeBytes()))
+		}
 	}
-	if got, err := srv.BSRead(ctx, lib.ResBlobs(lib.EmptySha256, 0), 0, 0); err != nil || len(got) != 0 {
-		fail("bs-read", fmt.Sprintf("%d bytes, err %v", len(got), err))
+	for _, lim := range []int64{0, 1, 4096} {
+		got, err := srv.BSRead(ctx, lib.ResBlobs(lib.EmptySha256, 0), 0, lim)
+		if wd(err) {
+			return
+		}
+		if err != nil || len(got) != 0 {
+			fail("bs-read", fmt.Sprintf("read_limit %d: %d bytes, err %v", lim, len(got), err))
+		}
 	}
-	if got, err := srv.BSRead(ctx, lib.ResZstd(lib.EmptySha256, 0), 0, 0); err != nil {
+	if got, err := srv.BSRead(ctx, lib.ResZstd(lib.EmptySha256, 0), 0, 0); wd(err) {
+		return
+	} else if err != nil {
 		fail("bs-read-zstd", fmt.Sprintf("err %v", err))
 	} else if d, derr := lib.ZstdDecodeBoth(got); derr != nil || len(d) != 0 {
 		fail("bs-read-zstd", fmt.Sprintf("decoded %d bytes, err %v", len(d), derr))
 	}
-	if miss, err := srv.FindMissing(ctx, &pb.Digest{Hash: lib.EmptySha256}); err != nil || len(miss) != 0 {
+	if miss, err := srv.FindMissing(ctx, &pb.Digest{Hash: lib.EmptySha256}); wd(err) {
+		return
+	} else if err != nil || len(miss) != 0 {
 		fail("findmissing", fmt.Sprintf("missing=%v err=%v", miss, err))
 	}
-	r.Count("empty-blob.checked")
+	// GetTree whose root is the empty blob (= the empty Directory)
+	if st, err := srv.CAS.GetTree(ctx, &pb.GetTreeRequest{RootDigest: &pb.Digest{Hash: lib.EmptySha256}}); err != nil {
+		if !wd(err) {
+			fail("gettree", "GetTree(root = empty blob) failed: "+err.Error())
+		}
+	} else {
+		ndirs := 0
+		for {
+			m, err := st.Recv()
+			if err == io.EOF {
+				break
+			}
+			if wd(err) {
+				return
+			}
+			if err != nil {
+				fail("gettree", "GetTree(root = empty blob) failed: "+err.Error())
+				break
+			}
+			for _, d := range m.Directories {
+				ndirs++
+				if !proto.Equal(d, &pb.Directory{}) {
+					fail("gettree", "GetTree(root = empty blob) returned a non-empty Directory: "+d.String())
+				}
+			}
+		}
+		r.Count("empty-blob.gettree.directories_returned." + strconv.Itoa(ndirs))
+	}
+	// an ActionResult whose stdout and output file are the empty blob, inlining requested
+	ad := &pb.Digest{Hash: lib.Sha256Hex([]byte("C02 empty-blob action " + where + e.wcfg + e.rcfg + strconv.Itoa(int(r.Seed)))), SizeBytes: 9}
+	ed := func() *pb.Digest { return &pb.Digest{Hash: lib.EmptySha256} }
+	if _, err := srv.AC.UpdateActionResult(ctx, &pb.UpdateActionResultRequest{ActionDigest: ad, ActionResult: &pb.ActionResult{ExitCode: 1, StdoutDigest: ed(), OutputFiles: []*pb.OutputFile{{Path: "empty", Digest: ed()}}}}); err != nil {
+		if !wd(err) {
+			r.Count("empty-blob.ac.update_failed")
+		}
+	} else if res, err := srv.AC.GetActionResult(ctx, &pb.GetActionResultRequest{ActionDigest: ad, InlineStdout: true, InlineOutputFiles: []string{"empty"}}); err != nil {
+		if !wd(err) {
+			fail("ac-inline", "GetActionResult of a result that references only the empty blob failed: "+err.Error())
+		}
+	} else {
+		r.Count("empty-blob.ac-inline.checked")
+		if len(res.StdoutRaw) != 0 || len(res.GetOutputFiles()) != 1 || len(res.OutputFiles[0].Contents) != 0 {
+			fail("ac-inline", fmt.Sprintf("inlined empty blob is not empty: stdout %d bytes, %d files", len(res.StdoutRaw), len(res.GetOutputFiles())))
+		} else if res.StdoutDigest.GetHash() != lib.EmptySha256 || res.StdoutDigest.GetSizeBytes() != 0 || res.OutputFiles[0].Digest.GetHash() != lib.EmptySha256 || res.OutputFiles[0].Digest.GetSizeBytes() != 0 {
+			fail("ac-inline", fmt.Sprintf("digests of the empty blob changed: stdout %v file %v", res.StdoutDigest, res.OutputFiles[0].Digest))
+		}
+	}
+	r.Count("empty-blob.checked." + where)
 }
 
-// treeAndInline exercises GetTree and inlined ActionResult fields.
-func (e *c02Env) treeAndInline(rng *rand.Rand, tag string) {
+// damageLastChunk overwrites the frame magic of the last compressed chunk of a stored cas.v2 file (the offsets
+// come from the harness's own parser of the published format), so that every decoder fails exactly there: reads
+// then produce genuine mid-stream errors after the earlier chunks were delivered. Returns the number of logical
+// bytes that precede the damaged chunk, or -1.
+func damageLastChunk(dir string, b *c02Blob) int64 {
+	m, _ := filepath.Glob(filepath.Join(dir, "cas.v2", b.hash[:2], b.hash+"-*"))
+	if len(m) != 1 || strings.HasSuffix(m[0], ".v1") {
+		return -1
+	}
+	file, err := os.ReadFile(m[0])
+	if err != nil {
+		return -1
+	}
+	h, err := lib.CasParseHeader(file)
+	if err != nil || h.Compression != 1 || len(h.Offsets) < 3 {
+		return -1
+	}
+	at := h.Offsets[len(h.Offsets)-2]
+	f, err := os.OpenFile(m[0], os.O_WRONLY, 0)
+	if err != nil {
+		return -1
+	}
+	defer func() { _ = f.Close() }()
+	if _, err := f.WriteAt([]byte{0xba, 0xdb, 0xad, 0x00}, at); err != nil {
+		return -1
+	}
+	return int64(len(h.Offsets)-2) * int64(h.ChunkSize)
+}
+
+// readDamaged reads a blob whose last stored chunk was damaged. Only the conditional obligations hold: a read that
+// reports success delivered exactly the range; whatever arrives before an error is a prefix of the range and
+// within a non-zero limit.
+func (e *c02Env) readDamaged(rng *rand.Rand, b *c02Blob, good int64, first string) {
+	r, srv := e.r, e.srv
+	B, n, h := b.B, int64(len(b.B)), b.hash
+	cfg := "w=" + e.wcfg + ",r=" + e.rcfg
+	judge := func(path string, off int64, got []byte, success bool, extra map[string]any) {
+		r.Eval()
+		if extra == nil {
+			extra = map[string]any{}
+		}
+		extra["offset"], extra["last_chunk_damaged_on_disk"], extra["intact_logical_bytes"] = off, true, good
+		want := B[off:]
+		outcome := "error-after-prefix"
+		switch {
+		case success && !bytes.Equal(got, want):
+			outcome = "success-wrong"
+			e.viol("wrong-bytes", path, b, fmt.Sprintf("%s reported success on an entry with a damaged chunk but delivered %d bytes that are not the range [%d,%d)", path, len(got), off, n), extra)
+		case success:
+			outcome = "success-exact"
+		case !bytes.HasPrefix(want, got):
+			outcome = "error-not-prefix"
+			first := 0
+			for first < len(got) && first < len(want) && got[first] == want[first] {
+				first++
+			}
+			extra["first_difference_at"] = first
+			e.viol("not-a-prefix", path, b, fmt.Sprintf("%s failed, but the %d bytes delivered before the error are not a prefix of the range [%d,%d): first difference at %d", path, len(got), off, n, first), extra)
+		case len(got) == 0:
+			outcome = "error-no-bytes"
+		}
+		r.Count("damaged-chunk." + path + "." + outcome)
+		r.Distinct("damaged-chunk", path, cfg, outcome)
+	}
+	bsRead := func(off, lim int64) {
+		ctx, cancel := lib.Ctx()
+		defer cancel()
+		got, err := srv.BSRead(ctx, lib.ResBlobs(h, n), off, lim)
+		if x1IsWatchdog(ctx, err) {
+			e.watchdog("bs-read")
+			return
+		}
+		if lim > 0 && int64(len(got)) > lim {
+			r.Eval()
+			e.viol("limit-exceeded", "bs-read", b, fmt.Sprintf("read_limit %d but %d bytes delivered (offset %d, damaged entry)", lim, len(got), off), map[string]any{"offset": off, "limit": lim})
+			return
+		}
+		if lim > 0 && lim < n-off {
+			// a limited read: success means exactly lim bytes of the range
+			r.Eval()
+			if !bytes.HasPrefix(B[off:], got) || err == nil && int64(len(got)) != lim {
+				e.viol("wrong-bytes", "bs-read", b, fmt.Sprintf("limited read (offset %d, limit %d) of a damaged entry delivered %d bytes, err=%v, not a prefix / not the limit", off, lim, len(got), err), map[string]any{"offset": off, "limit": lim})
+			}
+			r.Count("damaged-chunk.bs-read-limited." + lib.Code(err).String())
+			return
+		}
+		judge("bs-read", off, got, err == nil, map[string]any{"limit": lim, "status": lib.Code(err).String()})
+	}
+	httpGet := func() {
+		g := srv.HTTPGet("/cas/"+h, nil)
+		if x1IsWatchdog(nil, g.Err) || x1IsWatchdog(nil, g.BodyErr) {
+			e.watchdog("http-get")
+			return
+		}
+		if g.Err != nil || g.Status != 200 {
+			judge("http-get", 0, nil, false, map[string]any{"status": g.Status})
+			return
+		}
+		judge("http-get", 0, g.Body, g.BodyErr == nil, map[string]any{"status": g.Status, "body_err": fmt.Sprint(g.BodyErr)})
+	}
+	batch := func() {
+		ctx, cancel := lib.Ctx()
+		defer cancel()
+		resp, err := srv.CAS.BatchReadBlobs(ctx, &pb.BatchReadBlobsRequest{Digests: []*pb.Digest{{Hash: h, SizeBytes: n}}})
+		if x1IsWatchdog(ctx, err) {
+			e.watchdog("batchread")
+			return
+		}
+		if err != nil || len(resp.Responses) != 1 || resp.Responses[0].GetStatus().GetCode() != 0 {
+			judge("batchread", 0, nil, false, nil)
+			return
+		}
+		judge("batchread", 0, resp.Responses[0].Data, true, nil)
+	}
+	zstdPaths := func(which string) {
+		// compressed answers: the server may hand the stored frames through unread; only an answer that both standard
+		// decoders accept is a delivered range
+		var body []byte
+		ok := false
+		if which == "bs-read-zstd" {
+			ctx, cancel := lib.Ctx()
+			got, err := srv.BSRead(ctx, lib.ResZstd(h, n), 0, 0)
+			wd := x1IsWatchdog(ctx, err)
+			cancel()
+			if wd {
+				e.watchdog(which)
+				return
+			}
+			body, ok = got, err == nil
+		} else {
+			g := srv.HTTPGet("/cas/"+h, map[string]string{"Accept-Encoding": "zstd"})
+			body, ok = g.Body, g.Err == nil && g.BodyErr == nil && g.Status == 200 && g.Header.Get("Content-Encoding") == "zstd"
+		}
+		r.Eval()
+		if dec, derr := lib.ZstdDecodeBoth(body); ok && derr == nil {
+			judge(which, 0, dec, true, nil)
+		} else {
+			r.Count("damaged-chunk." + which + ".not-a-decodable-success")
+		}
+	}
+	mid := good/2 + 1 + rng.Int64N(1000)
+	ops := map[string]func(){
+		"bs-read@0":      func() { bsRead(0, 0) },
+		"bs-read@mid":    func() { bsRead(mid, 0) },
+		"http-get":       httpGet,
+		"batchread":      batch,
+		"bs-read-zstd@0": func() { zstdPaths("bs-read-zstd") },
+		"http-get-zstd":  func() { zstdPaths("http-get-zstd") },
+	}
+	ops[first]()
+	r.Count("damaged-chunk.first-read." + first)
+	// afterwards (the entry may be gone by now: then these are plain errors without bytes)
+	bsRead(0, good/2)
+	bsRead(good-1, 0)
+	bsRead(good, 0)
+	bsRead(n-1, 0)
+	for _, k := range []string{"bs-read@0", "http-get", "batchread", "bs-read-zstd@0", "http-get-zstd"} {
+		if k != first {
+			ops[k]()
+		}
+	}
+}
+
+// c02Tree is a generated directory tree whose Directory blobs were stored through the upload paths.
+type c02Tree struct {
+	root   *pb.Digest
+	stored map[string]*pb.Directory // every reachable Directory by the hash of its encoding
+	how    string
+}
+
+// buildTree generates a tree (depth <= maxDepth, fan-out <= 3); with big, one Directory is larger than one storage
+// chunk (1 MiB); with diamond, one sub-directory is referenced twice. Files are only named, never stored: GetTree
+// does not read them. put stores one Directory blob and reports whether that worked.
+func buildTree(rng *rand.Rand, tag string, maxDepth int, big, diamond bool, put func(b []byte) bool) (*c02Tree, bool) {
+	t := &c02Tree{stored: map[string]*pb.Directory{}, how: fmt.Sprintf("big=%v diamond=%v", big, diamond)}
+	ok := true
+	cnt := 0
+	finish := func(d *pb.Directory) *pb.Digest {
+		cnt++
+		d.Files = append(d.Files, &pb.FileNode{Name: "uniq", Digest: &pb.Digest{Hash: lib.Sha256Hex([]byte(fmt.Sprintf("%s-uniq-%d", tag, cnt))), SizeBytes: int64(cnt)}}) // makes each directory unique
+		b, _ := proto.Marshal(d)
+		dg := lib.DigestOf(b)
+		if !put(b) {
+			ok = false
+		}
+		t.stored[dg.Hash] = d
+		return dg
+	}
+	var build func(depth int) *pb.Digest
+	build = func(depth int) *pb.Digest {
+		d := &pb.Directory{}
+		for i := 0; i < rng.IntN(4); i++ {
+			d.Files = append(d.Files, &pb.FileNode{Name: fmt.Sprintf("f%d_%d", cnt, i), Digest: &pb.Digest{Hash: lib.RandHash(rng), SizeBytes: int64(1 + rng.IntN(300))}, IsExecutable: rng.IntN(2) == 0})
+		}
+		if depth < maxDepth {
+			for i := 0; i < rng.IntN(4); i++ {
+				d.Directories = append(d.Directories, &pb.DirectoryNode{Name: fmt.Sprintf("d%d_%d", depth, i), Digest: build(depth + 1)})
+			}
+		}
+		if depth == 1 {
+			if diamond {
+				shared := build(maxDepth) // a leaf-level directory, referenced twice
+				d.Directories = append(d.Directories, &pb.DirectoryNode{Name: "dia_a", Digest: shared}, &pb.DirectoryNode{Name: "dia_b", Digest: shared})
+			}
+			if big {
+				bd := &pb.Directory{}
+				for i := 0; i < 11000; i++ {
+					bd.Files = append(bd.Files, &pb.FileNode{Name: fmt.Sprintf("generated_file_%06d.o", i), Digest: &pb.Digest{Hash: lib.RandHash(rng), SizeBytes: int64(i + 1)}})
+				}
+				d.Directories = append(d.Directories, &pb.DirectoryNode{Name: "huge", Digest: finish(bd)})
+			}
+		}
+		return finish(d)
+	}
+	t.root = build(1)
+	return t, ok
+}
+
+// checkTree: GetTree must succeed and return, in any order, exactly the stored reachable directories (each at
+// least once), every one of them equal to what was stored.
+func (e *c02Env) checkTree(t *c02Tree, kind string) {
 	srv, r := e.srv, e.r
 	ctx, cancel := lib.Ctx()
 	defer cancel()
-	put := func(b []byte) *pb.Digest {
-		d := lib.DigestOf(b)
-		if d.SizeBytes > 0 {
-			_ = srv.Cache.Put(ctx, cache.CAS, d.Hash, d.SizeBytes, bytes.NewReader(b))
-		}
-		return d
-	}
-	// generated directory tree: depth <= 4, fan-out <= 4
-	stored := map[string]*pb.Directory{}
-	var build func(depth int) *pb.Digest
-	cnt := 0
-	build = func(depth int) *pb.Digest {
-		cnt++
-		d := &pb.Directory{}
-		for i := 0; i < rng.IntN(4); i++ {
-			fb := lib.GenBlob(rng, 1+rng.IntN(300), "text", fmt.Sprintf("%s-f%d", tag, cnt*10+i))
-			d.Files = append(d.Files, &pb.FileNode{Name: fmt.Sprintf("f%d_%d", cnt, i), Digest: put(fb), IsExecutable: rng.IntN(2) == 0})
-		}
-		if depth < 4 {
-			for i := 0; i < rng.IntN(4); i++ {
-				d.Directories = append(d.Directories, &pb.DirectoryNode{Name: fmt.Sprintf("d%d_%d", cnt, i), Digest: build(depth + 1)})
-			}
-		}
-		d.Files = append(d.Files, &pb.FileNode{Name: "uniq", Digest: &pb.Digest{Hash: lib.RandHash(rng), SizeBytes: int64(cnt)}}) // makes each directory unique
-		b, _ := proto.Marshal(d)
-		dg := put(b)
-		stored[dg.Hash] = d
-		return dg
-	}
-	root := build(1)
-	st, err := srv.CAS.GetTree(ctx, &pb.GetTreeRequest{RootDigest: root})
-	r.Eval()
-	tb := &c02Blob{hash: root.Hash, B: make([]byte, root.SizeBytes), via: "disk-put"}
-	if err != nil {
-		e.viol("read-failed", "gettree", tb, "GetTree failed: "+err.Error(), nil)
-		return
-	}
+	tb := &c02Blob{hash: t.root.Hash, B: make([]byte, t.root.SizeBytes), via: kind + " " + t.how}
+	st, err := srv.CAS.GetTree(ctx, &pb.GetTreeRequest{RootDigest: t.root})
 	var got []*pb.Directory
-	for {
-		m, err := st.Recv()
-		if err != nil {
-			break
+	for err == nil {
+		var m *pb.GetTreeResponse
+		m, err = st.Recv()
+		if err == nil {
+			got = append(got, m.Directories...)
 		}
-		got = append(got, m.Directories...)
 	}
-	r.Count("gettree.directories_returned." + strconv.Itoa(min(len(got), 20)))
-	r.Distinct("gettree", "w="+e.wcfg+",r="+e.rcfg, len(stored))
-	if len(got) == 0 || !proto.Equal(got[0], stored[root.Hash]) {
-		e.viol("wrong-bytes", "gettree", tb, "first returned Directory is not the root", nil)
+	if x1IsWatchdog(ctx, err) {
+		e.watchdog("gettree")
 		return
 	}
-	seen := map[string]bool{}
+	r.Eval()
+	if err != io.EOF {
+		e.viol("read-failed", "gettree", tb, "GetTree of a stored tree failed: "+err.Error(), map[string]any{"tree": kind})
+		return
+	}
+	big := 0
+	for _, d := range t.stored {
+		if proto.Size(d) > lib.MiB {
+			big++
+		}
+	}
+	r.Count("gettree." + kind + ".directories_returned." + strconv.Itoa(min(len(got), 20)))
+	r.Count("gettree." + kind + ".trees")
+	r.CountN("gettree."+kind+".directories_larger_than_a_chunk", int64(big))
+	r.Distinct("gettree", kind, "w="+e.wcfg+",r="+e.rcfg, min(len(t.stored), 20))
+	seen := map[string]int{}
 	for _, d := range got {
 		b, _ := proto.Marshal(d)
 		hh := lib.Sha256Hex(b)
-		want, ok := stored[hh]
+		want, ok := t.stored[hh]
 		if !ok || !proto.Equal(d, want) {
-			e.viol("wrong-bytes", "gettree", tb, "GetTree returned a Directory that differs from every stored one", map[string]any{"returned": d.String()})
+			txt := d.String()
+			e.viol("wrong-bytes", "gettree", tb, "GetTree returned a Directory that differs from every stored one", map[string]any{"tree": kind, "returned_prefix": txt[:min(len(txt), 300)]})
 			return
 		}
-		seen[hh] = true
+		seen[hh]++
 	}
-	if len(seen) != len(stored) {
-		e.viol("wrong-bytes", "gettree", tb, fmt.Sprintf("GetTree returned %d distinct directories of %d stored and reachable", len(seen), len(stored)), nil)
+	if len(seen) != len(t.stored) {
+		e.viol("wrong-bytes", "gettree", tb, fmt.Sprintf("GetTree returned %d distinct directories of %d stored and reachable", len(seen), len(t.stored)), map[string]any{"tree": kind})
 	}
+}
 
+// c02AR is an ActionResult whose blobs the harness holds.
+type c02AR struct {
+	ad     *pb.Digest
+	how    string
+	fields []c02Field
+}
+
+type c02Field struct {
+	name     string // "stdout", "stderr" or the output file's path
+	B        []byte
+	d        *pb.Digest
+	inlineUp bool // carried inline in the upload
+}
+
+// buildAR uploads an ActionResult with stdout, stderr and 3-5 output files whose sizes, per profile, stay far
+// below / straddle / exceed the inlining budget of a response. viaHTTP: PUT /ac/ (no inline fields); otherwise
+// UpdateActionResult with some fields carried inline. storeBlob stores a referenced blob.
+func (e *c02Env) buildAR(rng *rand.Rand, tag string, profile int, viaHTTP bool, storeBlob func(b *c02Blob) bool) *c02AR {
+	srv, r := e.srv, e.r
+	var sizes []int
+	switch profile % 3 {
+	case 0: // everything small
+		sizes = []int{1 + rng.IntN(5000), 1 + rng.IntN(5000), 1 + rng.IntN(200000), 1, 4097}
+	case 1: // stdout+stderr+first file fill the budget (3 MiB) exactly; the rest exceeds it
+		sizes = []int{lib.MiB + 1, lib.MiB, lib.MiB - 1, 1, 4097, 70000}
+	default: // one field larger than the whole budget, in the middle
+		sizes = []int{100 + rng.IntN(100), 64 * lib.KiB, 3*lib.MiB + 1, 4096, 1 + rng.IntN(3000)}
+	}
+	a := &c02AR{ad: &pb.Digest{Hash: lib.Sha256Hex([]byte(tag)), SizeBytes: 77}, how: fmt.Sprintf("profile=%d http=%v", profile%3, viaHTTP)}
+	ar := &pb.ActionResult{ExitCode: int32(profile)}
+	for i, sz := range sizes {
+		B := lib.GenBlob(rng, sz, lib.Pick(rng, lib.ContentKinds), fmt.Sprintf("%s-field%d", tag, i))
+		f := c02Field{B: B, d: lib.DigestOf(B)}
+		f.inlineUp = !viaHTTP && rng.IntN(3) == 0
+		var raw []byte
+		if f.inlineUp {
+			raw = B
+		} else if !storeBlob(&c02Blob{B: B, hash: f.d.Hash}) {
+			r.Count("store.failed.ac-field")
+			return nil
+		}
+		switch i {
+		case 0:
+			f.name = "stdout"
+			ar.StdoutDigest, ar.StdoutRaw = f.d, raw
+		case 1:
+			f.name = "stderr"
+			ar.StderrDigest, ar.StderrRaw = f.d, raw
+		default:
+			f.name = fmt.Sprintf("out/dir%d/file%d", i%2, i)
+			ar.OutputFiles = append(ar.OutputFiles, &pb.OutputFile{Path: f.name, Digest: f.d, Contents: raw, IsExecutable: i%2 == 0})
+		}
+		a.fields = append(a.fields, f)
+	}
+	if viaHTTP {
+		body, _ := proto.Marshal(ar)
+		if g := srv.HTTPPut("/ac/"+a.ad.Hash, body, nil); g.Status != 200 {
+			r.Count("store.failed.ac-http")
+			return nil
+		}
+		r.Count("store.ac-http")
+		return a
+	}
+	ctx, cancel := lib.Ctx()
+	defer cancel()
+	if _, err := srv.AC.UpdateActionResult(ctx, &pb.UpdateActionResultRequest{ActionDigest: a.ad, ActionResult: ar}); err != nil {
+		r.Count("store.failed.ac-grpc")
+		return nil
+	}
+	r.Count("store.ac-grpc")
+	return a
+}
+
+// checkAR: every field of a returned ActionResult keeps its digest, and its inline bytes are either absent or
+// exactly the content of that digest - whatever subset was requested and however the budget is split.
+func (e *c02Env) checkAR(rng *rand.Rand, a *c02AR, kind string) {
+	srv, r := e.srv, e.r
+	for round := 0; round < 2; round++ {
+		req := &pb.GetActionResultRequest{ActionDigest: a.ad}
+		want := map[string]bool{}
+		for _, f := range a.fields {
+			if round == 0 || rng.IntN(2) == 0 {
+				want[f.name] = true
+				switch f.name {
+				case "stdout":
+					req.InlineStdout = true
+				case "stderr":
+					req.InlineStderr = true
+				default:
+					req.InlineOutputFiles = append(req.InlineOutputFiles, f.name)
+				}
+			}
+		}
+		ctx, cancel := lib.Ctx()
+		res, err := srv.AC.GetActionResult(ctx, req)
+		wd := x1IsWatchdog(ctx, err)
+		cancel()
+		if wd {
+			e.watchdog("ac-inline")
+			return
+		}
+		ib := &c02Blob{hash: a.ad.Hash, B: a.fields[0].B, via: "action result " + kind + " " + a.how}
+		r.Eval()
+		if err != nil {
+			e.viol("read-failed", "ac-inline", ib, "GetActionResult with inlining failed although every referenced blob is stored: "+err.Error(), map[string]any{"ar": kind})
+			return
+		}
+		r.Distinct("ac-inline", kind, a.how, "w="+e.wcfg+",r="+e.rcfg, round)
+		r.Count("ac-inline." + kind + ".checked")
+		files := map[string]*pb.OutputFile{}
+		for _, of := range res.OutputFiles {
+			files[of.Path] = of
+		}
+		var total int
+		for _, f := range a.fields {
+			var raw []byte
+			var d *pb.Digest
+			switch f.name {
+			case "stdout":
+				raw, d = res.StdoutRaw, res.StdoutDigest
+			case "stderr":
+				raw, d = res.StderrRaw, res.StderrDigest
+			default:
+				of := files[f.name]
+				if of == nil {
+					e.viol("wrong-bytes", "ac-inline", ib, "output file "+f.name+" is missing from the returned ActionResult", map[string]any{"ar": kind})
+					continue
+				}
+				raw, d = of.Contents, of.Digest
+			}
+			fb := &c02Blob{hash: f.d.Hash, B: f.B, via: fmt.Sprintf("field %s of action result %s (%s), uploaded inline=%v", f.name, a.ad.Hash[:12], a.how, f.inlineUp)}
+			r.Eval()
+			if d.GetHash() != f.d.Hash || d.GetSizeBytes() != f.d.SizeBytes {
+				e.viol("wrong-size", "ac-inline", fb, fmt.Sprintf("field %s: digest (%s,%d) returned for (%s,%d)", f.name, d.GetHash(), d.GetSizeBytes(), f.d.Hash, f.d.SizeBytes), map[string]any{"ar": kind, "requested": want[f.name]})
+			}
+			total += len(raw)
+			switch {
+			case len(raw) == 0:
+				r.Count("ac-inline.field." + map[bool]string{true: "requested", false: "not-requested"}[want[f.name]] + ".not-inlined")
+			case !bytes.Equal(raw, f.B):
+				first := 0
+				for first < len(raw) && first < len(f.B) && raw[first] == f.B[first] {
+					first++
+				}
+				e.viol("wrong-bytes", "ac-inline", fb, fmt.Sprintf("field %s: %d inline bytes differ from the %d bytes of its digest, first difference at %d", f.name, len(raw), len(f.B), first), map[string]any{"ar": kind, "requested": want[f.name]})
+			default:
+				r.Count("ac-inline.field." + map[bool]string{true: "requested", false: "not-requested"}[want[f.name]] + ".inlined." + lib.SizeClassName(len(raw)))
+			}
+		}
+		r.Count("ac-inline.response-inline-bytes." + map[bool]string{true: ">1MiB", false: "<=1MiB"}[total > lib.MiB])
+	}
+}
+
+// batchReadMulti: BatchReadBlobs with 2-8 digests in one request (mixed sizes, a duplicate, a digest that was never
+// stored, both compressor settings); responses are matched by digest and each is checked like a single read.
+func (e *c02Env) batchReadMulti(rng *rand.Rand, blobs []*c02Blob, calls int) {
+	srv, r := e.srv, e.r
+	if len(blobs) < 2 {
+		return
+	}
+	for c := 0; c < calls; c++ {
+		k := 2 + rng.IntN(7)
+		req := &pb.BatchReadBlobsRequest{}
+		z := c%2 == 1
+		path := "batchread-multi"
+		if z {
+			path = "batchread-multi-zstd"
+			req.AcceptableCompressors = []pb.Compressor_Value{pb.Compressor_ZSTD}
+		}
+		byKey := map[string]*c02Blob{}
+		total := 0
+		perm := rng.Perm(len(blobs))
+		for _, i := range perm {
+			b := blobs[i]
+			if len(req.Digests) >= k || total+len(b.B) > 24*lib.MiB {
+				continue
+			}
+			total += len(b.B)
+			req.Digests = append(req.Digests, &pb.Digest{Hash: b.hash, SizeBytes: int64(len(b.B))})
+			byKey[b.hash] = b
+		}
+		if len(req.Digests) == 0 {
+			continue
+		}
+		// a duplicate and a never-stored digest at random positions
+		dup := req.Digests[rng.IntN(len(req.Digests))]
+		absent := &pb.Digest{Hash: lib.RandHash(rng), SizeBytes: int64(1 + rng.IntN(100000))}
+		for _, x := range []*pb.Digest{{Hash: dup.Hash, SizeBytes: dup.SizeBytes}, absent} {
+			at := rng.IntN(len(req.Digests) + 1)
+			req.Digests = append(req.Digests[:at], append([]*pb.Digest{x}, req.Digests[at:]...)...)
+		}
+		ctx, cancel := lib.Ctx()
+		resp, err := srv.CAS.BatchReadBlobs(ctx, req)
+		wd := x1IsWatchdog(ctx, err)
+		cancel()
+		if wd {
+			e.watchdog(path)
+			continue
+		}
+		r.Count(fmt.Sprintf("%s.requests.%d-digests", path, len(req.Digests)))
+		r.Distinct(path, "w="+e.wcfg+",r="+e.rcfg, len(req.Digests))
+		anyb := byKey[dup.Hash]
+		if err != nil {
+			r.Eval()
+			e.viol("read-failed", path, anyb, fmt.Sprintf("BatchReadBlobs with %d digests (all but one stored) failed: %v", len(req.Digests), err), nil)
+			continue
+		}
+		answered := map[string]int{}
+		for _, rr := range resp.Responses {
+			hh := rr.GetDigest().GetHash()
+			b := byKey[hh]
+			code := codes.Code(rr.GetStatus().GetCode())
+			if b == nil {
+				if hh == absent.Hash {
+					r.Count(path + ".never-stored-digest." + code.String())
+				} else {
+					r.Eval()
+					e.viol("wrong-size", path, anyb, "response for a digest that was not requested: "+hh, nil)
+				}
+				continue
+			}
+			answered[hh]++
+			r.Eval()
+			r.Count(path + "." + code.String())
+			extra := map[string]any{"digests_in_request": len(req.Digests), "duplicate_in_request": hh == dup.Hash}
+			if code != codes.OK {
+				e.viol("read-failed", path, b, "BatchReadBlobs (several digests) blob status "+code.String(), extra)
+				continue
+			}
+			data := rr.Data
+			if rr.Compressor == pb.Compressor_ZSTD {
+				dec, derr := lib.ZstdDecodeBoth(data)
+				if derr != nil {
+					e.viol("undecodable", path, b, "zstd answer not decodable: "+derr.Error(), extra)
+					continue
+				}
+				data = dec
+			} else if rr.Compressor != pb.Compressor_IDENTITY {
+				e.viol("wrong-encoding", path, b, "unexpected compressor "+rr.Compressor.String(), extra)
+				continue
+			}
+			if !bytes.Equal(data, b.B) {
+				first := 0
+				for first < len(data) && first < len(b.B) && data[first] == b.B[first] {
+					first++
+				}
+				extra["got_len"], extra["want_len"], extra["first_difference_at"] = len(data), len(b.B), first
+				e.viol("wrong-bytes", path, b, fmt.Sprintf("%s returned %d bytes, expected %d; first difference at %d", path, len(data), len(b.B), first), extra)
+			} else if rr.Digest.GetSizeBytes() != int64(len(b.B)) {
+				e.viol("wrong-size", path, b, fmt.Sprintf("response digest (%s,%d)", hh, rr.Digest.GetSizeBytes()), extra)
+			}
+		}
+		for hh, b := range byKey {
+			if answered[hh] == 0 {
+				r.Eval()
+				e.viol("read-failed", path, b, "BatchReadBlobs (several digests) returned no response for a requested stored digest", nil)
+			}
+		}
+	}
+}
+
+// treeAndInline exercises GetTree and inlined ActionResult fields on entries written by the serving instance itself.
+func (e *c02Env) treeAndInline(rng *rand.Rand, tag string) {
+	srv, r := e.srv, e.r
+	put := func(b []byte) bool {
+		ctx, cancel := lib.Ctx()
+		defer cancel()
+		d := lib.DigestOf(b)
+		return srv.Cache.Put(ctx, cache.CAS, d.Hash, d.SizeBytes, bytes.NewReader(b)) == nil
+	}
+	// generated directory tree: depth <= 4, fan-out <= 4
+	if t, ok := buildTree(rng, tag, 4, false, rng.IntN(2) == 0, put); ok {
+		e.checkTree(t, "written-by-reader")
+	} else {
+		r.Count("store.failed.tree-directory")
+	}
 	// inlined ActionResult fields
-	so := lib.GenBlob(rng, 1+rng.IntN(5000), "text", tag+"-stdout")
-	se := lib.GenBlob(rng, 1+rng.IntN(5000), "random", tag+"-stderr")
-	of := lib.GenBlob(rng, 1+rng.IntN(200000), "repetitive", tag+"-of")
-	ar := &pb.ActionResult{StdoutDigest: put(so), StderrDigest: put(se), OutputFiles: []*pb.OutputFile{{Path: "a/b", Digest: put(of)}}}
-	ad := &pb.Digest{Hash: lib.RandHash(rng), SizeBytes: 7}
-	if _, err := srv.AC.UpdateActionResult(ctx, &pb.UpdateActionResultRequest{ActionDigest: ad, ActionResult: ar}); err != nil {
-		r.Count("inline.update_failed")
-		return
-	}
-	res, err := srv.AC.GetActionResult(ctx, &pb.GetActionResultRequest{ActionDigest: ad, InlineStdout: true, InlineStderr: true, InlineOutputFiles: []string{"a/b"}})
-	r.Eval()
-	ib := &c02Blob{hash: ad.Hash, B: so, via: "update-action-result"}
-	if err != nil {
-		e.viol("read-failed", "ac-inline", ib, "GetActionResult with inlining failed: "+err.Error(), nil)
-		return
-	}
-	r.Distinct("ac-inline", "w="+e.wcfg+",r="+e.rcfg)
-	r.Count("ac-inline.checked")
-	if !bytes.Equal(res.StdoutRaw, so) || !bytes.Equal(res.StderrRaw, se) || len(res.OutputFiles) != 1 || !bytes.Equal(res.OutputFiles[0].Contents, of) {
-		e.viol("wrong-bytes", "ac-inline", ib, fmt.Sprintf("inlined fields differ from the blobs: stdout %d/%d stderr %d/%d file %d/%d bytes",
-			len(res.StdoutRaw), len(so), len(res.StderrRaw), len(se), len(res.GetOutputFiles()[0].GetContents()), len(of)), nil)
+	if a := e.buildAR(rng, tag+"-ar", rng.IntN(3), false, func(b *c02Blob) bool { return put(b.B) }); a != nil {
+		e.checkAR(rng, a, "written-by-reader")
 	}
 }
 
 func runC02(r *lib.Run) {
 	r.SetRule("blobs (size classes x contents) written through a random write path under writer config (storage x zstd impl), cache directory re-opened under reader config (all 16 pairs), " +
-		"then read by 8 concurrent readers through every read path, offsets around 4 KiB and k x 1 MiB chunk boundaries and limits; some blobs held only by a proxy backend before their first read; " +
+		"then read by 8 concurrent readers through every read path, offsets around 4 KiB and every k x 1 MiB chunk boundary and limits, multi-digest BatchReadBlobs, cancelled streams; some blobs held only by a proxy backend before their first read; " +
+		"directory trees (one Directory > 1 MiB, one diamond, some directories backend-only) and ActionResults (3 size profiles around the inlining budget, gRPC with inline fields / HTTP) uploaded by the writer and read by the reader; " +
 		"distinct = (path, writer/reader config pair, size class, offset class, limit class)")
 	r.Assume("two independent standard zstd decoders (klauspost, libzstd) define 'decodable'")
 	blobsPer := r.N(6, 90)
@@ -504,8 +1121,13 @@ func runC02(r *lib.Run) {
 	rng := r.Rng("c02")
 	cfgs := []struct{ storage, impl string }{{"zstd", "go"}, {"zstd", "cgo"}, {"uncompressed", "go"}, {"uncompressed", "cgo"}}
 	bi := 0
+	pair := 0
+	firstKind := 0
+	damagedKind := 0
+	storeFailed := 0
 	for _, wc := range cfgs {
 		for _, rc := range cfgs {
+			pair++
 			e := &c02Env{r: r, wcfg: wc.storage + "/" + wc.impl, rcfg: rc.storage + "/" + rc.impl}
 			dir := lib.MkTemp("c02")
 			// ---- writer phase
@@ -515,6 +1137,10 @@ func runC02(r *lib.Run) {
 				return
 			}
 			e.srv = wsrv
+			// the empty blob on a fresh instance: empty cache, no backend
+			e.rcfg = "(writer instance, empty cache)"
+			e.emptyBlob("fresh-instance")
+			e.rcfg = rc.storage + "/" + rc.impl
 			var blobs []*c02Blob
 			for k := 0; k < blobsPer; k++ {
 				bi++
@@ -527,20 +1153,80 @@ func runC02(r *lib.Run) {
 				if k%3 == 2 {
 					b.backend, b.via = true, "backend-only"
 				} else if !e.store(rng, b) {
+					// a refused well-formed upload is C01's obligation, not a statement about reads: the blob is left out
 					r.Count("store.failed." + b.via)
-					e.viol("store-failed", b.via, b, "well-formed upload refused while preparing C02 (C01's business, reported here for visibility)", nil)
+					storeFailed++
 					continue
 				}
 				r.Count("store." + b.via)
 				blobs = append(blobs, b)
 			}
+			// directory trees and ActionResults uploaded by the writer; some Directory blobs / output files are
+			// left to the backend only
+			var backendOnly []*c02Blob
+			putDir := func(b []byte) bool {
+				blob := &c02Blob{B: b, hash: lib.Sha256Hex(b)}
+				if rng.IntN(4) == 0 {
+					backendOnly = append(backendOnly, blob)
+					r.Count("store.tree-directory.backend-only")
+					return true
+				}
+				ok := e.store(rng, blob)
+				if ok {
+					r.Count("store.tree-directory." + blob.via)
+				}
+				return ok
+			}
+			wtree, ok := buildTree(rng, fmt.Sprintf("C02-s%d-wt%d", r.Seed, pair), 3, true, true, putDir)
+			if !ok {
+				r.Count("store.failed.tree-directory")
+				storeFailed++
+				wtree = nil
+			}
+			var wars []*c02AR
+			for i := 0; i < r.N(2, 6); i++ {
+				viaHTTP := i%2 == 1
+				a := e.buildAR(rng, fmt.Sprintf("C02-s%d-p%d-ar%d", r.Seed, pair, i), pair+i, viaHTTP, func(b *c02Blob) bool {
+					if len(b.B) < lib.MiB && rng.IntN(5) == 0 {
+						backendOnly = append(backendOnly, b)
+						r.Count("store.ac-field.backend-only")
+						return true
+					}
+					return e.store(rng, b)
+				})
+				if a == nil {
+					storeFailed++
+					continue
+				}
+				wars = append(wars, a)
+			}
+			// one entry of three chunks whose last chunk will be damaged on disk before the reader opens the directory
+			var dblob *c02Blob
+			dgood := int64(-1)
+			if wc.storage == "zstd" {
+				B := lib.GenBlob(rng, 2*lib.MiB+4097+rng.IntN(5000), lib.Pick(rng, lib.ContentKinds), fmt.Sprintf("C02-s%d-damaged%d", r.Seed, pair))
+				dblob = &c02Blob{B: B, hash: lib.Sha256Hex(B)}
+				if !e.store(rng, dblob) {
+					r.Count("store.failed." + dblob.via)
+					storeFailed++
+					dblob = nil
+				}
+			}
 			wsrv.Close()
+			if dblob != nil {
+				if dgood = damageLastChunk(dir, dblob); dgood < 0 {
+					r.Count("damaged-chunk.could-not-damage")
+				}
+			}
 			// ---- reader phase (with a backend that holds the backend-only blobs in the reader's storage format)
 			px := lib.NewFakeProxy(rc.storage == "zstd")
 			for _, b := range blobs {
 				if b.backend {
 					px.SetBlob(cache.CAS, b.hash, b.B)
 				}
+			}
+			for _, b := range backendOnly {
+				px.SetBlob(cache.CAS, b.hash, b.B)
 			}
 			rsrv, err := lib.StartServer(lib.ServerOpts{Dir: dir, MaxSize: 64 << 30, Storage: rc.storage, ZstdImpl: rc.impl, Proxy: px})
 			if err != nil {
@@ -549,13 +1235,15 @@ func runC02(r *lib.Run) {
 				continue
 			}
 			e.srv = rsrv
-			// targeted first reads of backend-only blobs (the read that triggers the fetch), one kind per blob
+			// targeted first reads of backend-only blobs (the read that triggers the fetch), one kind per blob,
+			// rotating over all kinds across the configuration pairs
 			firstKinds := []string{"bs-read-zstd-offset", "bs-read-offset", "http-get-zstd", "batchread-zstd", "http-get", "batchread"}
-			fk := 0
 			for _, b := range blobs {
 				if b.backend {
-					e.readsFor(rng, b, 1, firstKinds[(fk+bi)%len(firstKinds)])
-					fk++
+					fk := firstKinds[firstKind%len(firstKinds)]
+					firstKind++
+					e.readsFor(rng, b, 1, fk)
+					r.Count("backend-first-read." + fk + ".reader=" + rc.storage)
 				}
 			}
 			var wg sync.WaitGroup
@@ -578,14 +1266,31 @@ func runC02(r *lib.Run) {
 			}
 			close(ch)
 			wg.Wait()
-			e.emptyBlob()
+			if len(blobs) > 0 {
+				e.batchReadMulti(rng, blobs, r.N(4, 12))
+			}
+			if dblob != nil && dgood > 0 {
+				kinds := []string{"bs-read@0", "http-get", "bs-read@mid", "batchread", "bs-read-zstd@0", "http-get-zstd"}
+				e.readDamaged(rng, dblob, dgood, kinds[damagedKind%len(kinds)])
+				damagedKind++
+			}
+			e.emptyBlob("reader")
+			if wtree != nil {
+				e.checkTree(wtree, "written-before-reopen")
+			}
+			for _, a := range wars {
+				e.checkAR(rng, a, "written-before-reopen")
+			}
 			e.treeAndInline(rng, fmt.Sprintf("C02-s%d-t%d", r.Seed, bi))
-			if bi <= 8 {
+			if bi <= 8 && len(blobs) > 0 {
 				r.Sample(map[string]any{"writer": e.wcfg, "reader": e.rcfg, "blobs": len(blobs), "first_blob": map[string]any{"hash": blobs[0].hash, "size": len(blobs[0].B), "via": blobs[0].via}})
 			}
 			rsrv.Close()
 			_ = removeAll(dir)
 		}
+	}
+	if storeFailed > 0 {
+		r.Inconclusive(fmt.Sprintf("%d well-formed uploads were refused while preparing the reads (C01's obligation): the blobs / trees / action results concerned were left out", storeFailed))
 	}
 }
 
